@@ -115,16 +115,16 @@ func (p *prim) coq() string {
 
 // ---------------------------------------------------------------- rational arithmetic
 
-func rat(x float64) *big.Rat         { return new(big.Rat).SetFloat64(x) }
-func radd(a, b *big.Rat) *big.Rat    { return new(big.Rat).Add(a, b) }
-func rsub(a, b *big.Rat) *big.Rat    { return new(big.Rat).Sub(a, b) }
-func rmul(a, b *big.Rat) *big.Rat    { return new(big.Rat).Mul(a, b) }
-func rdiv(a, b *big.Rat) *big.Rat    { return new(big.Rat).Quo(a, b) }
-func rsq(a *big.Rat) *big.Rat        { return new(big.Rat).Mul(a, a) }
-func rabs(a *big.Rat) *big.Rat       { return new(big.Rat).Abs(a) }
-func rneg(a *big.Rat) *big.Rat       { return new(big.Rat).Neg(a) }
-func rhalf(a *big.Rat) *big.Rat      { return rdiv(a, big.NewRat(2, 1)) }
-func rrelu(a *big.Rat) *big.Rat      { return rmax(a, new(big.Rat)) }
+func rat(x float64) *big.Rat      { return new(big.Rat).SetFloat64(x) }
+func radd(a, b *big.Rat) *big.Rat { return new(big.Rat).Add(a, b) }
+func rsub(a, b *big.Rat) *big.Rat { return new(big.Rat).Sub(a, b) }
+func rmul(a, b *big.Rat) *big.Rat { return new(big.Rat).Mul(a, b) }
+func rdiv(a, b *big.Rat) *big.Rat { return new(big.Rat).Quo(a, b) }
+func rsq(a *big.Rat) *big.Rat     { return new(big.Rat).Mul(a, a) }
+func rabs(a *big.Rat) *big.Rat    { return new(big.Rat).Abs(a) }
+func rneg(a *big.Rat) *big.Rat    { return new(big.Rat).Neg(a) }
+func rhalf(a *big.Rat) *big.Rat   { return rdiv(a, big.NewRat(2, 1)) }
+func rrelu(a *big.Rat) *big.Rat   { return rmax(a, new(big.Rat)) }
 func rmin(a, b *big.Rat) *big.Rat {
 	if a.Cmp(b) <= 0 {
 		return a
